@@ -32,8 +32,8 @@ ParserGarbage(x) ==
       [] OTHER           -> Fresh
 UsesParser(x) == x \in {"geo", "har", "abortdeep", "path200", "truncjson", "scalar", "ndjson", "huge", "blanklines", "wsjson"}
 \* bytes left unread in the pooled bufio.Reader
-ReaderGarbage(x) == CASE x = "csvabort" -> 4000 [] x = "csvok" -> 0 [] OTHER -> 0
-UsesReader(x) == x \in {"csvabort", "csvok", "scalar", "plain"}    \* text inputs that reach the CSV check
+ReaderGarbage(x) == CASE x = "csvabort" -> 4000 [] x = "csvtsvabort" -> 4 [] x = "csvok" -> 0 [] OTHER -> 0
+UsesReader(x) == x \in {"csvabort", "csvtsvabort", "onerec", "csvok", "scalar", "plain"}    \* text inputs that reach the CSV check
 
 VARIABLES parser, reader, tainted, hist
 vars == <<parser, reader, tainted, hist>>
